@@ -232,16 +232,9 @@ func installNatives(in *Interp) {
 		}
 		return val.B(a[0].K == val.Nil), nil
 	})
-	// not is a lisp function of one parameter in the implementation: wrong counts are arity errors
-	nat(in, "not", func(in *Interp, a []val.V) (val.V, *Thrown) {
-		if len(a) < 1 {
-			return val.V{}, GoErr("arity-few")
-		}
-		if len(a) > 1 {
-			return val.V{}, GoErr("arity-many")
-		}
-		return val.B(!truthy(a[0])), nil
-	})
+	// not is a lisp function in the implementation: (def not (fn (a) (if a false true)))
+	in.Global.Set("not", val.V{K: val.Fn, F: &Closure{Params: []string{"a"}, Env: in.Global,
+		Body: []val.V{val.L(val.Y("if"), val.Y("a"), val.B(false), val.B(true))}}})
 	nat(in, "apply", func(in *Interp, a []val.V) (val.V, *Thrown) {
 		if len(a) < 2 || !isSeq(a[len(a)-1]) {
 			return val.V{}, bad
